@@ -15,6 +15,7 @@ import struct
 from ..core import hx, unhx, parallel_map
 
 DRIVERS = ["drv_edits"]
+GENERATED = ["AlignCosts"]
 
 REGEXES = [r"\w+", r".", r"\S+", r"[a-z]+|\d+"]
 EXTRA_REGEXES = [r"b*", r"\w"]          # empty matches; single-character tokens
@@ -477,14 +478,11 @@ def eval_infer(rep, case, impl):
             for secs, e in ((am[a], D), (ap[b], I)):
                 for t, s in secs:
                     if t == e and trim_ws(s) != "":
-                        if all(zero_width(c) for c in trim_ws(s) if c not in WS):
-                            rep.violation("infer:distance-zero-pairs-zero-width-difference",
-                                          "with max-line-distance 0 two lines that differ by a zero-width "
-                                          "non-whitespace character are paired", replay)
-                        else:
-                            rep.violation("infer:distance-zero-pairs-differing-lines",
-                                          "with max-line-distance 0 a paired line has a non-whitespace emphasised section",
-                                          replay)
+                        # since /repo 31540bd a non-blank changed section counts at least 1, zero-width or not
+                        rep.violation("infer:distance-zero-pairs-differing-lines",
+                                      "with max-line-distance 0 a paired line has a non-whitespace emphasised section"
+                                      + (" (zero-width characters only)" if all(zero_width(c) for c in trim_ws(s) if c not in WS) else ""),
+                                      replay)
 
 
 # --------------------------------------------------------------------------- runs
@@ -594,7 +592,7 @@ def run(ctx, rep):
 
 
 CORPUS = [
-    # known finding: zero-width difference paired at threshold 0 (notes/C06.md)
+    # fixed in /repo 31540bd: a zero-width difference must not be paired at threshold 0 (notes/C06.md)
     dict(op="infer", regex=r"\w+", max="0", naive="0.0", minus=["a b\n"], plus=["a \u200bb\n"], mtags=[ND], ptags=[NI]),
     # whitespace-only difference is paired at threshold 0
     dict(op="infer", regex=r"\w+", max="0", naive="0.0", minus=["a b\n"], plus=["a  b\n"], mtags=[ND], ptags=[NI]),
